@@ -44,6 +44,8 @@ identically on the real run by substituting a plain value for the returned Defer
   * unpause below the number of user pauses and double firing (C03) are never generated;
   * failures are compared by exception id, never by traceback; unhandled-error logging at GC is
     ignored.
+A block of fresh random programs of every family also runs under defer.setDebugging(True) (the
+statement does not depend on the flag; it is process-global and restored afterwards).
 
 Classification: a divergence is keyed `paused-chainee-strands-inner-callbacks` only when, in the
 operation where it first shows, the model handed a result to a Deferred that stayed paused (user
@@ -86,7 +88,7 @@ FLOORS = {"ops_compared": 20000, "callback_events_compared": 10000, "chain_waits
           "reentrant_random_programs": 5000, "re_act_add_own": 5000, "re_act_add_other": 2000, "re_act_nested_runs": 3000,
           "re_act_ace": 3000, "re_act_pause": 1000, "re_chain_fired": 3000, "re_chain_ace": 3000, "re_top_ace": 5000,
           "re_act_suspended_pause": 2000, "re_act_suspended_add": 200, "re_act_suspended_unpause": 50,
-          "reentrant_suspended_programs": 2000}
+          "reentrant_suspended_programs": 2000, "programs_with_debugging_on": 2000}
 READY = True
 
 KEY_STRAND = "paused-chainee-strands-inner-callbacks"
@@ -544,7 +546,7 @@ def check_program(ctx, nd, ops, origin):
             ctx.distinct((nd, ops))
 
     def witness(t, **kw):
-        w = {"nd": nd, "ops": ops, "origin": origin, "diverged_at_op": t, "op": ops[t] if t is not None else None,
+        w = {"nd": nd, "ops": ops, "origin": origin, "debugging": "debugging-on" in origin, "diverged_at_op": t, "op": ops[t] if t is not None else None,
              "substituted": m.subs, "model_trace": m.trace, "real_trace": list(real.trace)}
         w.update(kw)
         return w
@@ -908,9 +910,8 @@ def run(ctx):
 
     _begin_logging()
 
-    if defer.Deferred.debug:
-        ctx.inconclusive("Deferred.debug is on; the check expects the default (off)")
-        return
+    was_debugging = defer.getDebugging()
+    defer.setDebugging(False)
     # (nd, nops, alphabet name) - complete spaces per tier
     if ctx.quick or float(os.environ.get("VERIF_SCALE", "1")) < 1:  # smoke runs use the quick spaces
         spaces = [(2, 6, "S"), (3, 5, "S"), (4, 5, "S"), (2, 4, "F"), (3, 4, "F"), (2, 4, "R"), (3, 3, "R"), (2, 5, "P"), (3, 4, "P")]
@@ -966,7 +967,22 @@ def run(ctx):
             gc.collect()
         if i < 2 and ctx.shard == 0:
             ctx.sample({"suspended_case": i, "nd": nd, "ops": _tolists(ops)})
-    gc.collect()
+    # the statement does not depend on Deferred.debug: a block of fresh random programs of each family under
+    # defer.setDebugging(True) (process-global, restored afterwards), same oracle
+    defer.setDebugging(True)
+    try:
+        for i in ctx.cases(6000, 60000):
+            rng = ctx.case_rng("debug", i)
+            fam = i % 3
+            nd, ops = random_program(rng, False) if fam == 0 else random_reentrant(rng) if fam == 1 else random_suspended(rng)
+            check_program(ctx, nd, ops, ("", "re-entrant ", "re-entrant suspended ")[fam] + "debugging-on case %d" % i)
+            ctx.count("programs_with_debugging_on")
+            n += 1
+            if n % gc_every == 0:
+                gc.collect()
+        gc.collect()
+    finally:
+        defer.setDebugging(was_debugging)
     for k, v in _LOGGED.items():
         if k != "on":
             ctx.count("gc_logged_unhandled_" + k, v)  # whitelisted: only _E is provoked on purpose
@@ -977,4 +993,11 @@ def replay(ctx, w):
     x = w["witness"]
     ops = [_tup(o) for o in x["ops"]]
     _begin_logging()
-    check_program(ctx, x["nd"], ops, "replay")
+    from twisted.internet import defer
+
+    was = defer.getDebugging()
+    defer.setDebugging(bool(x.get("debugging")))
+    try:
+        check_program(ctx, x["nd"], ops, "replay debugging-on" if x.get("debugging") else "replay")
+    finally:
+        defer.setDebugging(was)
